@@ -12,12 +12,14 @@ CONSTANTS
   CertU,      \* set of [k, s, h] : CertCreated events
   S2NU,       \* set of blocks for SafeToNotar events
   EvSlots,    \* slots for FirstShred / InvalidBlock / SafeToSkip / timeouts
-  MaxSteps    \* bound on the number of state-changing events (0 = unbounded)
+  MaxSteps,   \* bound on the number of state-changing events (0 = unbounded)
+  Prefix      \* sequence of blocks from BlockU announced first, in this order (brings the node into a state
+              \* with own notar votes in earlier slots; not counted in MaxSteps)
 
-VARIABLES votor, act, out, my, seen, steps, sid
+VARIABLES votor, act, out, my, seen, steps, sid, pre
 
-vars == <<votor, act, out, my, seen, steps, sid>>
-View == <<votor, my, seen, steps>>
+vars == <<votor, act, out, my, seen, steps, sid, pre>>
+View == <<votor, my, seen, steps, pre>>
 
 \* my   : set of vote messages cast so far (ghost)
 \* seen : ghost facts recorded when they happen:
@@ -60,6 +62,7 @@ Step(a, o, sn) ==
   /\ seen' = [sn EXCEPT !.badCast = @ \/ ~CastOK(votor, my, sn, o)]
   /\ steps' = IF o.v = votor /\ o.out = <<>> THEN steps ELSE steps + 1
   /\ sid' = VId(o.v, my', seen', steps')
+  /\ pre' = pre
 
 Init ==
   /\ votor = InitVotor
@@ -69,10 +72,22 @@ Init ==
   /\ seen = EmptySeen
   /\ steps = 0
   /\ sid = VId(votor, my, seen, steps)
+  /\ pre = 0
 
 OwnVoted(s) == Voted(votor, s)
 
+PrefixNext ==
+  LET b == Prefix[pre + 1]
+      e == [t |-> "Block", s |-> b.s, h |-> b.h, par |-> b.par]
+      o == OnBlockstore(votor, e)
+  IN /\ votor' = o.v /\ act' = [op |-> "bs", e |-> e] /\ out' = [msgs |-> o.out, arm |-> o.arm]
+     /\ my' = my \cup VotesIn(o)
+     /\ seen' = [seen EXCEPT !.badCast = @ \/ ~CastOK(votor, my, seen, o)]
+     /\ steps' = steps /\ pre' = pre + 1
+     /\ sid' = VId(o.v, my', seen', pre' + 1000)
+
 Next ==
+  IF pre < Len(Prefix) THEN PrefixNext ELSE
   /\ (MaxSteps = 0 \/ steps < MaxSteps)
   /\ \/ \E x \in ReadyU :
           LET e == [t |-> "ParentReady", s |-> x[1], p |-> x[2]]
@@ -108,7 +123,7 @@ Next ==
             o == OnPool(votor, e)
         IN /\ votor' = o.v /\ act' = [op |-> "pool", e |-> e]
            /\ out' = [msgs |-> o.out, arm |-> o.arm]
-           /\ UNCHANGED <<my, seen, steps, sid>>
+           /\ UNCHANGED <<my, seen, steps, sid, pre>>
 
 ---------------------------------------------------------------------------
 EmitEdge == PrintT(<<"EDGE", ToJson([f |-> sid, a |-> act', e |-> out', t |-> sid'])>>)
